@@ -23,7 +23,9 @@
 (*   FixCredit  TRUE: discarded extended data (code # 1) is credited             *)
 (* Mut re-introduces a defect (sensitivity runs): "none" | "no_decrement" |      *)
 (*   "ignore_maxpkt" | "over_ack" | "thresh_lt" | "eof_twice" |                  *)
-(*   "no_close_answer" | "no_unlink" | "early_return"                            *)
+(*   "no_close_answer" | "no_unlink" | "early_return" | "no_flush" (HoldBack:     *)
+(*   the last in-flight sender forgets the queued EOF/CLOSE) | "wait_window_only" *)
+(*   (the window wait re-tests only the window, so a close wakes nobody)           *)
 EXTENDS Naturals, Sequences, FiniteSets, TLC
 
 CONSTANTS UsersA, UsersB,   \* user threads of each side (strings)
@@ -198,9 +200,13 @@ SendEntry(t) ==
                  /\ UNCHANGED <<op, left, pend, held, calls, ctx, last, spins, chan, hb, tr, robs>> /\ NoEmit
      ELSE SendReserve(t)
 
-SendWake(t) ==          \* woken by _window_adjust / _set_closed / (eof_sent is only seen after a wake-up)
+\* out_buffer_cv is notified by _window_adjust and by _set_closed (close, peer CLOSE, transport loss); the loop in
+\* _wait_for_send_window leaves on window > 0 or closed (eof_sent alone wakes nobody: it is seen after the next wake-up)
+WakeCond(t)  == outwin[Side(t)] > 0 \/ closed[Side(t)]
+WakeGuard(t) == IF Mut = "wait_window_only" THEN outwin[Side(t)] > 0 ELSE WakeCond(t)
+SendWake(t) ==
   LET X == Side(t) IN
-  /\ pc[t] = "send_wait" /\ (outwin[X] > 0 \/ closed[X] \/ eofSent[X])
+  /\ pc[t] = "send_wait" /\ WakeGuard(t)
   /\ IF closed[X] \/ eofSent[X] THEN SendReturns0(t) ELSE SendReserve(t)
 
 SendTimer(t) ==         \* the timed wait expires: socket.timeout
@@ -217,7 +223,7 @@ SendFin(t) ==           \* HoldBack: _send_done, locked: one hand-over less; the
   LET X == Side(t) IN
   /\ pc[t] = "send_fin"
   /\ inflight' = [inflight EXCEPT ![X] = @ - 1]
-  /\ IF inflight[X] > 1 \/ ctlq[X] = <<>>
+  /\ IF inflight[X] > 1 \/ ctlq[X] = <<>> \/ Mut = "no_flush"
        THEN ctlq' = ctlq /\ pend' = pend /\ pc' = [pc EXCEPT ![t] = "send_done"]
        ELSE ctlq' = [ctlq EXCEPT ![X] = <<>>] /\ pend' = [pend EXCEPT ![t] = ctlq[X]] /\ pc' = [pc EXCEPT ![t] = "flush_emit"]
   /\ UNCHANGED <<op, left, held, calls, ctx, last, spins, chan, tr, robs>> /\ NoEmit
@@ -482,6 +488,16 @@ ReleasedInv    == \A X \in Sides : Released(X) => ~linked[X]
 NoSendAfterRelease == /\ \A X \in Sides : ~lateEmit[X]
                       /\ \A t \in Threads : (last[t].rel /\ last[t].op \in SendOps) => last[t].out = "raised"
 (* C25 *)
+\* a sender parked in the window wait is never left there once the window reopened or the channel was closed.
+\* NoHangInWindowWait is an AT-REST predicate (Channel_Trace evaluates it when a schedule of the real code has ended);
+\* HangFree is its model form: no state in which every call in progress is stuck for good while one of them is such a sender.
+NoHangInWindowWait == \A t \in Threads : pc[t] = "send_wait" => ~WakeCond(t)
+StuckForGood(t) == \/ pc[t] = "idle"
+                   \/ pc[t] = "send_wait" /\ ~WakeGuard(t) /\ tmo[Side(t)] = "block"
+                   \/ pc[t] = "recv_read" /\ buf[Side(t)][Kind(t)] = 0 /\ ~pclosed[Side(t)] /\ tmo[Side(t)] = "block"
+Rest == /\ \A t \in Threads : StuckForGood(t)
+        /\ \A X \in Sides : tpc[X] = "idle" /\ (wire[X] = <<>> \/ ~alive[Peer(X)])
+HangFree == Rest => NoHangInWindowWait
 ReturnedMeansAll == \A t \in Threads : (last[t].op \in AllOps /\ last[t].out = "returned") => last[t].left = 0
 RaiseIfShut      == \A t \in Threads : (last[t].op \in AllOps /\ last[t].shut) => last[t].out \notin {"returned", "ret0"}
 SendallOutcome   == \A t \in Threads : last[t].op \in AllOps => last[t].out \in {"returned", "raised"}
